@@ -123,3 +123,14 @@ Proof.
 Qed.
 
 End Init.
+
+(* the sampler program of fast_nonMarkov_SIS with explicit initial nodes makes no call to
+   the random source: it is [nm_run] *)
+Lemma nmsis_sampler_is_nm_run : forall g dur delays tmax i0 tmin full fuel ds out tr,
+  exec (fast_nonMarkov_SIS g dur delays tmax (Some i0) None tmin full fuel) ds [] = (Ok out, tr) ->
+  nm_run g dur delays tmax tmin full fuel i0 = Ok out /\ tr = [].
+Proof.
+  intros g dur delays tmax i0 tmin full fuel ds out tr H. unfold fast_nonMarkov_SIS, with_initial in H.
+  destruct (nm_run g dur delays tmax tmin full fuel i0) as [o|e]; cbn [exec] in H; [|discriminate H].
+  injection H as <- <-. split; reflexivity.
+Qed.
